@@ -31,6 +31,7 @@ def install(eng, rec):
     M(r'^std::fs::File::open', lambda e, st, fr, f, a, m: one(st, Ok(Opaque('file'))))
     M(r'^<std::fs::File as std::io::Read>::read_to_string$', lambda e, st, fr, f, a, m: one(st, Ok(0)))
     M(r'^std::string::String::new$', lambda e, st, fr, f, a, m: one(st, StrV('')))
+    M(r'^std::fs::read_to_string', lambda e, st, fr, f, a, m: one(st, Ok(Opaque('string'))))
     M(r'^yaml_rust2::YamlLoader::load_from_str$', lambda e, st, fr, f, a, m: one(st, Ok(VecV.dense(list(rec['docs'])))))
     M(r'^<yaml_rust2::ScanError as std::string::ToString>::to_string$', lambda e, st, fr, f, a, m: one(st, StrV('scan error')))
     def yindex(e, st, fr, f, a, m):
